@@ -172,3 +172,628 @@ Qed.
 (* greatest lower bound: the queue deadline is the minimum of the deadlines it was built from *)
 Lemma earlier_glb : forall a b c, dl_le c a -> dl_le c b -> dl_le c (earlier a b).
 Proof. intros a b c Ha Hb. destruct (earlier_cases a b) as [E|E]; rewrite E; assumption. Qed.
+
+(* ------------------------------------------------------------------ queue algebra (no invariant needed) *)
+
+Lemma qget_qset : forall k k' v q, qget k (qset k' v q) = if key_eqb k k' then Some v else qget k q.
+Proof.
+  intros k k' v q. induction q as [|[k1 v1] t IH]; cbn.
+  - destruct (key_eqb k k'); reflexivity.
+  - destruct (key_eqb k' k1) eqn:E1.
+    + apply key_eqb_eq in E1. subst k1. cbn. destruct (key_eqb k k'); reflexivity.
+    + destruct (key_ltb k' k1); cbn.
+      * destruct (key_eqb k k'); reflexivity.
+      * rewrite IH. destruct (key_eqb k k1) eqn:E2; [|reflexivity].
+        apply key_eqb_eq in E2. subst k1. rewrite key_eqb_sym, E1. reflexivity.
+Qed.
+
+Lemma qget_qdel : forall k k' q, qget k (qdel k' q) = if key_eqb k' k then None else qget k q.
+Proof.
+  intros k k' q. unfold qdel. induction q as [|[k1 v1] t IH]; cbn.
+  - destruct (key_eqb k' k); reflexivity.
+  - destruct (key_eqb k' k1) eqn:E1; cbn.
+    + rewrite IH. apply key_eqb_eq in E1. subst k1. rewrite (key_eqb_sym k k').
+      destruct (key_eqb k' k); reflexivity.
+    + rewrite IH. destruct (key_eqb k k1) eqn:E2; [|reflexivity].
+      apply key_eqb_eq in E2. subst k1. rewrite E1. reflexivity.
+Qed.
+
+Lemma qget_In : forall k v q, qget k q = Some v -> In (k, v) q.
+Proof.
+  intros k v q. induction q as [|[k1 v1] t IH]; cbn; [discriminate|].
+  destruct (key_eqb k k1) eqn:E.
+  - apply key_eqb_eq in E. subst. intros H. inversion H. auto.
+  - auto.
+Qed.
+
+Lemma In_qget_some : forall k v q, In (k, v) q -> exists v', qget k q = Some v'.
+Proof.
+  intros k v q. induction q as [|[k1 v1] t IH]; cbn; [tauto|].
+  intros [H|H].
+  - inversion H. subst. rewrite key_eqb_refl. eauto.
+  - destruct (key_eqb k k1); eauto.
+Qed.
+
+Definition dflt (o : option (option Z)) : option Z := match o with Some e => e | None => None end.
+
+Lemma qadd1_get : forall dl q p k,
+  qget k (fst (qadd1 dl q p)) = if key_eqb k (pkey p) then Some (earlier (dflt (qget (pkey p) q)) dl) else qget k q.
+Proof.
+  intros dl q p k. unfold qadd1. destruct (qget (pkey p) q) as [e|] eqn:E; cbn; rewrite qget_qset; reflexivity.
+Qed.
+
+Lemma qadd_get : forall dl ps q evs k,
+  qget k (fst (qadd dl q evs ps)) =
+  if existsb (fun p => key_eqb k (pkey p)) ps then Some (earlier (dflt (qget k q)) dl) else qget k q.
+Proof.
+  intros dl ps. induction ps as [|p t IH]; intros q evs k; cbn; [reflexivity|].
+  destruct (qadd1 dl q p) as [q' fresh] eqn:E1.
+  rewrite IH. assert (Hq' : q' = fst (qadd1 dl q p)) by (rewrite E1; reflexivity).
+  rewrite Hq', qadd1_get.
+  destruct (key_eqb k (pkey p)) eqn:Ek; cbn.
+  - apply key_eqb_eq in Ek. subst k.
+    destruct (existsb _ t); cbn; [rewrite earlier_idem|]; reflexivity.
+  - reflexivity.
+Qed.
+
+Lemma qadd_nil : forall dl q evs, qadd dl q evs [] = (q, evs).
+Proof. reflexivity. Qed.
+
+Lemma qadd_app : forall dl a b q evs,
+  qadd dl q evs (a ++ b) = let '(q1, e1) := qadd dl q evs a in qadd dl q1 e1 b.
+Proof.
+  intros dl a. induction a as [|p t IH]; intros b q evs; cbn; [reflexivity|].
+  destruct (qadd1 dl q p) as [q' fresh]. apply IH.
+Qed.
+
+(* ------------------------------------------------------------------ priority tiers *)
+
+Lemma filter_nil_all : forall {A} (f : A -> bool) l, filter f l = [] -> forall x, In x l -> f x = false.
+Proof.
+  intros A f l. induction l as [|h t IH]; cbn; [tauto|].
+  destruct (f h) eqn:E; [discriminate|]. intros H x [Hx|Hx]; [subst; exact E | auto].
+Qed.
+
+Lemma first_nonempty_groups : forall gr g p,
+  first_nonempty (groups gr) = Some g -> In p g ->
+  In p gr /\ forall p', In p' gr -> tier p <= tier p'.
+Proof.
+  intros gr g p H Hin. unfold groups in H. cbn in H. unfold tier.
+  destruct (filter (fun p0 => negb (is_critical p0) && negb (is_owned_by_daemonset p0)) gr) as [|x0 l0] eqn:F0.
+  2:{ inversion H. subst g. rewrite <- F0 in Hin. apply filter_In in Hin. destruct Hin as [Hin Hf]. split; [exact Hin|].
+      intros p' _. destruct (is_critical p), (is_owned_by_daemonset p); cbn in Hf; try discriminate.
+      destruct (is_critical p'), (is_owned_by_daemonset p'); lia. }
+  destruct (filter (fun p0 => negb (is_critical p0) && is_owned_by_daemonset p0) gr) as [|x1 l1] eqn:F1.
+  2:{ inversion H. subst g. rewrite <- F1 in Hin. apply filter_In in Hin. destruct Hin as [Hin Hf]. split; [exact Hin|].
+      intros p' Hp'. pose proof (filter_nil_all _ _ F0 p' Hp') as N0. cbn in N0.
+      destruct (is_critical p), (is_owned_by_daemonset p); cbn in Hf; try discriminate.
+      destruct (is_critical p'), (is_owned_by_daemonset p'); cbn in N0; try discriminate; lia. }
+  destruct (filter (fun p0 => is_critical p0 && negb (is_owned_by_daemonset p0)) gr) as [|x2 l2] eqn:F2.
+  2:{ inversion H. subst g. rewrite <- F2 in Hin. apply filter_In in Hin. destruct Hin as [Hin Hf]. split; [exact Hin|].
+      intros p' Hp'. pose proof (filter_nil_all _ _ F0 p' Hp') as N0. pose proof (filter_nil_all _ _ F1 p' Hp') as N1.
+      cbn in N0, N1.
+      destruct (is_critical p), (is_owned_by_daemonset p); cbn in Hf; try discriminate.
+      destruct (is_critical p'), (is_owned_by_daemonset p'); cbn in N0, N1; try discriminate; lia. }
+  destruct (filter (fun p0 => is_critical p0 && is_owned_by_daemonset p0) gr) as [|x3 l3] eqn:F3.
+  { discriminate. }
+  inversion H. subst g. rewrite <- F3 in Hin. apply filter_In in Hin. destruct Hin as [Hin Hf]. split; [exact Hin|].
+  intros p' Hp'. pose proof (filter_nil_all _ _ F0 p' Hp') as N0. pose proof (filter_nil_all _ _ F1 p' Hp') as N1.
+  pose proof (filter_nil_all _ _ F2 p' Hp') as N2. cbn in N0, N1, N2.
+  destruct (is_critical p), (is_owned_by_daemonset p); cbn in Hf; try discriminate.
+  destruct (is_critical p'), (is_owned_by_daemonset p'); cbn in N0, N1, N2; try discriminate; lia.
+Qed.
+
+(* when no group is non-empty there is no graceful candidate at all *)
+Lemma first_nonempty_none : forall gr, first_nonempty (groups gr) = None -> gr = [].
+Proof.
+  intros gr H. destruct gr as [|p t]; [reflexivity|]. exfalso.
+  unfold groups in H. cbn in H.
+  destruct (is_critical p) eqn:C, (is_owned_by_daemonset p) eqn:D; cbn in H;
+  repeat match type of H with
+  | context [match ?l with [] => _ | _ :: _ => _ end] => destruct l
+  end; try discriminate.
+Qed.
+
+(* ------------------------------------------------------------------ Terminator.Drain *)
+
+Lemma waiting_of_In : forall now pods p, In p (waiting_of now pods) <-> In p pods /\ waiting now p.
+Proof. intros. unfold waiting_of. rewrite filter_In, is_waiting_eviction_spec. tauto. Qed.
+
+Lemma delete_eligible_In : forall now dl pods p,
+  In p (delete_eligible now dl pods) <-> In p pods /\ waiting now p /\ due_under now p dl.
+Proof. intros. unfold delete_eligible. rewrite filter_In, waiting_of_In, nfd_due_under. tauto. Qed.
+
+Lemma graceful_In : forall now dl pods p,
+  In p (graceful now dl pods) <-> In p pods /\ waiting now p /\ ~ due_under now p dl.
+Proof.
+  intros. unfold graceful. rewrite filter_In, waiting_of_In.
+  rewrite (negb_true_not _ _ (nfd_due_under now p dl)). tauto.
+Qed.
+
+(* tier order: what a drain pass hands to the queue *)
+Lemma selected_selectable : forall now dl pods p,
+  In p (selected now dl pods) -> In p pods /\ selectable now dl pods p.
+Proof.
+  intros now dl pods p H. unfold selected in H. apply in_app_or in H. destruct H as [H|H].
+  - apply delete_eligible_In in H. destruct H as [H1 [H2 H3]]. split; [exact H1|]. split; [exact H2 | left; exact H3].
+  - destruct (first_nonempty (groups (graceful now dl pods))) as [g|] eqn:E; [|destruct H].
+    destruct (first_nonempty_groups _ _ _ E H) as [Hin Hmin].
+    apply graceful_In in Hin. destruct Hin as [H1 [H2 H3]]. split; [exact H1|]. split; [exact H2|].
+    right. intros p' Hp' Hw Hnd. apply Hmin. apply graceful_In. tauto.
+Qed.
+
+(* nothing waiting is left out entirely unless a lower tier is still occupied: the pass selects something
+   whenever something is waiting *)
+Lemma selected_nonempty : forall now dl pods p,
+  In p pods -> waiting now p -> selected now dl pods <> [].
+Proof.
+  intros now dl pods p Hin Hw Hnil. unfold selected in Hnil. apply app_eq_nil in Hnil. destruct Hnil as [Hd Hg].
+  destruct (first_nonempty (groups (graceful now dl pods))) as [g|] eqn:E.
+  - subst g. clear - E. unfold groups in E. cbn in E.
+    repeat match type of E with
+    | context [match ?l with [] => _ | _ :: _ => _ end] => destruct l
+    end; discriminate.
+  - apply first_nonempty_none in E.
+    destruct (nfd now p dl) eqn:N.
+    + assert (In p (delete_eligible now dl pods)) by (apply delete_eligible_In; rewrite <- nfd_due_under; tauto).
+      rewrite Hd in H. destruct H.
+    + assert (In p (graceful now dl pods)).
+      { apply graceful_In. split; [exact Hin|]. split; [exact Hw|]. rewrite <- nfd_due_under. congruence. }
+      rewrite E in H. destruct H.
+Qed.
+
+Lemma nonempty_false : forall {A} (l : list A), nonempty l = false -> l = [].
+Proof. intros A [|h t]; cbn; [reflexivity | discriminate]. Qed.
+
+(* the queue after a pass is Queue.Add of the selected pods *)
+Lemma drain_queue : forall q now dl pods,
+  fst (drain q now dl pods) = fst (qadd dl q [] (selected now dl pods)).
+Proof.
+  intros q now dl pods. unfold drain, selected.
+  rewrite qadd_app.
+  set (fg := first_nonempty (groups (graceful now dl pods))).
+  destruct (nonempty (delete_eligible now dl pods)) eqn:Ne.
+  - destruct (qadd dl q [] (delete_eligible now dl pods)) as [q1 e1].
+    destruct fg as [g|].
+    + destruct (qadd dl q1 e1 g) as [q2 e2]. reflexivity.
+    + reflexivity.
+  - apply nonempty_false in Ne. rewrite Ne. rewrite qadd_nil.
+    destruct fg as [g|].
+    + destruct (qadd dl q [] g) as [q2 e2]. reflexivity.
+    + reflexivity.
+Qed.
+
+Lemma drain_err_ok : forall q now dl pods,
+  d_err (snd (drain q now dl pods)) = DOk <-> waiting_of now pods = [].
+Proof.
+  intros q now dl pods. unfold drain.
+  destruct (if nonempty (delete_eligible now dl pods) then qadd dl q [] (delete_eligible now dl pods) else (q, [])) as [q1 e1].
+  destruct (first_nonempty (groups (graceful now dl pods))) as [g|] eqn:E.
+  - destruct (qadd dl q1 e1 g) as [q2 e2]. cbn. split; [discriminate|].
+    intros Hn. exfalso. assert (Hg : graceful now dl pods = []) by (unfold graceful; rewrite Hn; reflexivity).
+    rewrite Hg in E. cbn in E. discriminate.
+  - apply first_nonempty_none in E.
+    destruct (nonempty (delete_eligible now dl pods)) eqn:Ne; cbn.
+    + split; [discriminate|]. intros Hn. unfold delete_eligible in Ne. rewrite Hn in Ne. discriminate.
+    + split; [|reflexivity]. intros _. apply nonempty_false in Ne.
+      destruct (waiting_of now pods) as [|p t] eqn:W; [reflexivity|]. exfalso.
+      assert (Hp : In p (waiting_of now pods)) by (rewrite W; left; reflexivity).
+      destruct (nfd now p dl) eqn:N.
+      * assert (In p (delete_eligible now dl pods)) by (unfold delete_eligible; apply filter_In; tauto).
+        rewrite Ne in H. destruct H.
+      * assert (In p (graceful now dl pods)) by (unfold graceful; apply filter_In; rewrite N; tauto).
+        rewrite E in H. destruct H.
+Qed.
+
+Lemma drain_err_not_other : forall q now dl pods, d_err (snd (drain q now dl pods)) <> DOther.
+Proof.
+  intros q now dl pods. unfold drain.
+  destruct (if nonempty (delete_eligible now dl pods) then qadd dl q [] (delete_eligible now dl pods) else (q, [])) as [q1 e1].
+  destruct (first_nonempty (groups (graceful now dl pods))) as [g|].
+  - destruct (qadd dl q1 e1 g) as [q2 e2]. cbn. discriminate.
+  - destruct (nonempty (delete_eligible now dl pods)); cbn; discriminate.
+Qed.
+
+Lemma existsb_key_In : forall k ps, existsb (fun p => key_eqb k (pkey p)) ps = true <-> exists p, In p ps /\ pkey p = k.
+Proof.
+  intros k ps. rewrite existsb_exists. split; intros [p [H1 H2]]; exists p; split; auto.
+  - apply key_eqb_eq in H2. auto.
+  - apply key_eqb_eq. auto.
+Qed.
+
+(* the model's drain pass satisfies the specification of a drain pass, from every queue *)
+Lemma drain_meets_spec : forall q now dl pods,
+  drain_spec q now dl pods (snd (drain q now dl pods)) (fst (drain q now dl pods)).
+Proof.
+  intros q now dl pods. unfold drain_spec. rewrite drain_queue. repeat split.
+  - intros k v H. rewrite qadd_get in H.
+    destruct (existsb (fun p => key_eqb k (pkey p)) (selected now dl pods)) eqn:Ex.
+    + inversion H as [Hv]. clear H. apply existsb_key_In in Ex. destruct Ex as [p [Hp Hk]].
+      destruct (qget k q) as [v0|] eqn:G; cbn.
+      * left. exists v0. split; [reflexivity|]. split; [apply earlier_le_l|].
+        destruct (earlier_cases v0 dl); auto.
+      * right. split; [reflexivity|]. split; [reflexivity|]. exists p.
+        destruct (selected_selectable _ _ _ _ Hp). auto.
+    + left. exists v. split; [exact H|]. split; [apply dl_le_refl | auto].
+  - intros k Hk. rewrite qadd_get. destruct (existsb _ _); [discriminate | exact Hk].
+  - intros Hok p Hin Hw. apply drain_err_ok in Hok.
+    assert (In p (waiting_of now pods)) by (apply waiting_of_In; auto). rewrite Hok in H. destruct H.
+  - intros Hall. apply drain_err_ok. destruct (waiting_of now pods) as [|p t] eqn:W; [reflexivity|]. exfalso.
+    assert (Hp : In p (waiting_of now pods)) by (rewrite W; left; reflexivity).
+    apply waiting_of_In in Hp. destruct Hp. eapply Hall; eauto.
+  - apply drain_err_not_other.
+Qed.
+
+(* ------------------------------------------------------------------ Queue.Reconcile *)
+
+Lemma clamp_grace_ge1 : forall now t, 1 <= clamp_grace now t.
+Proof. intros. unfold clamp_grace. lia. Qed.
+
+Lemma clamp_grace_within : forall now t, clamp_grace now t * sec <= Z.max (t - now) sec.
+Proof. intros now t. unfold clamp_grace, sec. Z.quot_rem_to_equations. lia. Qed.
+
+Lemma reconcile_meets_spec : forall q now p api nok,
+  rec_spec q now p (snd (reconcile q now p api nok)) (fst (reconcile q now p api nok)).
+Proof.
+  intros q now p api nok. unfold rec_spec, reconcile.
+  assert (Rest : forall dl0, qget (pkey p) q = Some dl0 ->
+    let x := rest_of_reconcile q now p api nok in
+    (r_act (snd x) = Some Evict -> may_evict now p /\ qget (pkey p) q <> None) /\
+    (forall g, r_act (snd x) = Some (Delete g) -> False) /\
+    (forall k v, qget k (fst x) = Some v -> qget k q = Some v)).
+  { intros dl0 G. unfold rest_of_reconcile.
+    destruct (is_active p) eqn:A; cbn.
+    - destruct (is_evictable now p) eqn:Ev; cbn.
+      + unfold evict. destruct api; cbn; (split; [intros _; split; [apply is_evictable_spec; exact Ev | congruence]|]);
+          (split; [intros g Hg; discriminate|]); intros k v; rewrite ?qget_qdel;
+          try (destruct (key_eqb (pkey p) k); [discriminate | auto]); auto.
+      + split; [discriminate|]. split; [intros g Hg; discriminate | auto].
+    - split; [discriminate|]. split; [intros g Hg; discriminate|].
+      intros k v. rewrite qget_qdel. destruct (key_eqb (pkey p) k); [discriminate | auto]. }
+  destruct (qget (pkey p) q) as [dl0|] eqn:G.
+  2:{ cbn. split; [discriminate|]. split; [intros g Hg; discriminate | auto]. }
+  destruct dl0 as [t|].
+  - destruct (nfd now p (Some t)) eqn:N.
+    + apply nfd_spec in N. unfold force_delete.
+      assert (forall g, Some (Delete (clamp_grace now t)) = Some (Delete g) ->
+              exists t0, Some (Some t) = Some (Some t0) /\ delete_due now p t0 /\ 1 <= g /\ g * sec <= Z.max (t0 - now) sec).
+      { intros g Hg. inversion Hg. subst g. exists t. split; [reflexivity|]. split; [exact N|].
+        split; [apply clamp_grace_ge1 | apply clamp_grace_within]. }
+      destruct api; cbn; (split; [discriminate|]); (split; [exact H|]); intros k v; rewrite ?qget_qdel;
+        try (destruct (key_eqb (pkey p) k); [discriminate | auto]); auto.
+    + destruct (Rest _ eq_refl) as [R1 [R2 R3]]. split; [exact R1|]. split; [|exact R3].
+      intros g Hg. destruct (R2 g Hg).
+  - destruct (Rest _ eq_refl) as [R1 [R2 R3]]. split; [exact R1|]. split; [|exact R3].
+    intros g Hg. destruct (R2 g Hg).
+Qed.
+
+(* ------------------------------------------------------------------ every point of every history meets the specification *)
+
+Lemma step_meets_spec : forall q o, entry_ok (mkE q o (snd (step q o)) (fst (step q o))).
+Proof.
+  intros q o. unfold entry_ok. destruct o as [now dl pods| |now p api nok|]; cbn.
+  - pose proof (drain_meets_spec q now dl pods) as H. destruct (drain q now dl pods) as [q' d]. exact H.
+  - split; [reflexivity | discriminate].
+  - pose proof (reconcile_meets_spec q now p api nok) as H. destruct (reconcile q now p api nok) as [q' r]. exact H.
+  - reflexivity.
+Qed.
+
+Lemma trace_from_ok : forall ops q, Forall entry_ok (trace_from q ops).
+Proof.
+  intros ops. induction ops as [|o t IH]; intros q; cbn; [constructor|].
+  pose proof (step_meets_spec q o) as H. destruct (step q o) as [q' x]. constructor; [exact H | apply IH].
+Qed.
+
+Lemma history_meets_spec_l : forall ops, Forall entry_ok (trace ops).
+Proof. intros ops. apply trace_from_ok. Qed.
+
+Lemma run_from_app : forall a b q, run_from q (a ++ b) = run_from (run_from q a) b.
+Proof. intros a. induction a as [|o t IH]; intros b q; cbn; [reflexivity | apply IH]. Qed.
+
+Lemma run_snoc : forall ops o, run (ops ++ [o]) = fst (step (run ops) o).
+Proof. intros. unfold run. rewrite run_from_app. reflexivity. Qed.
+
+(* ------------------------------------------------------------------ the oracle is the specification *)
+
+Lemma selectable_b_spec : forall now dl pods p, selectable_b now dl pods p = true <-> selectable now dl pods p.
+Proof.
+  intros now dl pods p. unfold selectable_b, selectable.
+  rewrite andb_true_iff, orb_true_iff, waiting_b_spec, due_under_b_spec, forallb_forall.
+  split; intros [Hw H]; (split; [exact Hw|]); (destruct H as [H|H]; [left; exact H | right]).
+  - intros p' Hin Hw' Hnd. specialize (H p' Hin). rewrite !orb_true_iff in H.
+    destruct H as [[H|H]|H].
+    + apply (negb_true_not _ _ (waiting_b_spec now p')) in H. contradiction.
+    + apply due_under_b_spec in H. contradiction.
+    + apply Z.leb_le. exact H.
+  - intros p' Hin. rewrite !orb_true_iff.
+    destruct (waiting_b now p') eqn:W; [|left; left; reflexivity].
+    destruct (due_under_b now p' dl) eqn:D; [left; right; reflexivity|].
+    right. apply Z.leb_le. apply H; [exact Hin | apply waiting_b_spec; exact W|].
+    intros Hd. apply due_under_b_spec in Hd. congruence.
+Qed.
+
+Lemma drain_entry_b_spec : forall qb now dl pods k v,
+  drain_entry_b qb now dl pods k v = true <->
+  ((exists v0, qget k qb = Some v0 /\ dl_le v v0 /\ (v = v0 \/ v = dl)) \/
+   (qget k qb = None /\ v = dl /\ exists p, In p pods /\ pkey p = k /\ selectable now dl pods p)).
+Proof.
+  intros qb now dl pods k v. unfold drain_entry_b. destruct (qget k qb) as [v0|].
+  - rewrite andb_true_iff, orb_true_iff, dl_leb_spec, !dl_eqb_spec. split.
+    + intros [H1 H2]. left. exists v0. auto.
+    + intros [[v1 [E [H1 H2]]]|[E _]]; [inversion E; subst; auto | discriminate].
+  - rewrite andb_true_iff, dl_eqb_spec, existsb_exists. split.
+    + intros [H1 [p [Hin Hp]]]. right. apply andb_true_iff in Hp. destruct Hp as [Hk Hs].
+      apply key_eqb_eq in Hk. apply selectable_b_spec in Hs. split; [reflexivity|]. split; [exact H1|]. exists p. auto.
+    + intros [[v1 [E _]]|[_ [H1 [p [Hin [Hk Hs]]]]]]; [discriminate|]. split; [exact H1|].
+      exists p. split; [exact Hin|]. apply andb_true_iff. split; [apply key_eqb_eq; exact Hk | apply selectable_b_spec; exact Hs].
+Qed.
+
+Lemma forall_entries : forall (q : queue) (f : key -> option Z -> bool),
+  forallb (fun e : key * option Z => match qget (fst e) q with Some v => f (fst e) v | None => false end) q = true <->
+  (forall k v, qget k q = Some v -> f k v = true).
+Proof.
+  intros q f. rewrite forallb_forall. split.
+  - intros H k v G. specialize (H (k, v) (qget_In _ _ _ G)). cbn in H. rewrite G in H. exact H.
+  - intros H [k v] Hin. cbn. destruct (In_qget_some _ _ _ Hin) as [v' G]. rewrite G. apply H. exact G.
+Qed.
+
+Lemma forall_keys_present : forall (qb qa : queue),
+  forallb (fun e0 : key * option Z => is_some (qget (fst e0) qa)) qb = true <->
+  (forall k, qget k qb <> None -> qget k qa <> None).
+Proof.
+  intros qb qa. rewrite forallb_forall. split.
+  - intros H k Hk. destruct (qget k qb) as [v|] eqn:G; [|congruence].
+    specialize (H (k, v) (qget_In _ _ _ G)). cbn in H. destruct (qget k qa); [discriminate | discriminate].
+  - intros H [k v] Hin. cbn. destruct (In_qget_some _ _ _ Hin) as [v' G].
+    assert (qget k qa <> None) by (apply H; congruence). destruct (qget k qa); [reflexivity | congruence].
+Qed.
+
+Lemma drain_spec_b_spec : forall qb now dl pods d qa,
+  drain_spec_b qb now dl pods d qa = true <-> drain_spec qb now dl pods d qa.
+Proof.
+  intros qb now dl pods d qa. unfold drain_spec_b, drain_spec.
+  rewrite !andb_true_iff, (forall_entries qa (drain_entry_b qb now dl pods)), forall_keys_present.
+  assert (E1 : (forall k v, qget k qa = Some v -> drain_entry_b qb now dl pods k v = true) <->
+          (forall k v, qget k qa = Some v ->
+            (exists v0, qget k qb = Some v0 /\ dl_le v v0 /\ (v = v0 \/ v = dl)) \/
+            (qget k qb = None /\ v = dl /\ exists p, In p pods /\ pkey p = k /\ selectable now dl pods p))).
+  { split; intros H k v G; apply drain_entry_b_spec; apply H; exact G. }
+  rewrite E1. clear E1.
+  assert (E3 : match d_err d with
+               | DOk => forallb (fun p => negb (waiting_b now p)) pods
+               | DWaiting _ => existsb (waiting_b now) pods
+               | DOther => false
+               end = true <->
+               ((d_err d = DOk <-> forall p, In p pods -> ~ waiting now p) /\ d_err d <> DOther)).
+  { destruct (d_err d) as [|n|].
+    - rewrite forallb_forall. split.
+      + intros H. split; [|discriminate]. split; [|reflexivity]. intros _ p Hin.
+        apply (negb_true_not _ _ (waiting_b_spec now p)). apply H. exact Hin.
+      + intros [[H _] _] p Hin. apply (negb_true_not _ _ (waiting_b_spec now p)). apply H; [reflexivity | exact Hin].
+    - rewrite existsb_exists. split.
+      + intros [p [Hin Hw]]. split; [|discriminate]. split; [discriminate|].
+        intros H. exfalso. apply (H p Hin). apply waiting_b_spec. exact Hw.
+      + intros [[_ H] _]. destruct (existsb (waiting_b now) pods) eqn:Ex.
+        * apply existsb_exists in Ex. exact Ex.
+        * exfalso. assert (DWaiting n = DOk); [|discriminate]. apply H. intros p Hin Hw.
+          apply waiting_b_spec in Hw. assert (existsb (waiting_b now) pods = true); [|congruence].
+          apply existsb_exists. exists p. auto.
+    - split; [discriminate | intros [_ H]; congruence]. }
+  rewrite E3. tauto.
+Qed.
+
+Lemma opt_dl_eqb_spec : forall a b, opt_dl_eqb a b = true <-> a = b.
+Proof.
+  intros [x|] [y|]; cbn; rewrite ?dl_eqb_spec; split; intros H; try discriminate; try congruence; auto.
+Qed.
+
+Lemma rec_spec_b_spec : forall qb now p r qa,
+  rec_spec_b qb now p r qa = true <-> rec_spec qb now p r qa.
+Proof.
+  intros qb now p r qa. unfold rec_spec_b, rec_spec. rewrite andb_true_iff.
+  assert (E3 : forallb (fun e : key * option Z => opt_dl_eqb (qget (fst e) qa) (qget (fst e) qb)) qa = true <->
+               (forall k v, qget k qa = Some v -> qget k qb = Some v)).
+  { rewrite forallb_forall. split.
+    - intros H k v G. specialize (H (k, v) (qget_In _ _ _ G)). cbn in H. apply opt_dl_eqb_spec in H. congruence.
+    - intros H [k v] Hin. cbn. apply opt_dl_eqb_spec. destruct (In_qget_some _ _ _ Hin) as [v' G].
+      rewrite G. symmetry. apply H. exact G. }
+  rewrite E3. clear E3.
+  destruct (r_act r) as [[|g]|].
+  - rewrite andb_true_iff, may_evict_b_spec. split.
+    + intros [[H1 H2] H3]. split; [|split; [intros g Hg; discriminate | exact H3]].
+      intros _. split; [exact H1|]. destruct (qget (pkey p) qb); [discriminate | discriminate].
+    + intros [H1 [_ H3]]. destruct (H1 eq_refl) as [Hm Hq]. split; [|exact H3]. split; [exact Hm|].
+      destruct (qget (pkey p) qb); [reflexivity | congruence].
+  - split.
+    + intros [H1 H3]. split; [discriminate|]. split; [|exact H3]. intros g' Hg. inversion Hg. subst g'.
+      destruct (qget (pkey p) qb) as [[t|]|]; try discriminate.
+      rewrite !andb_true_iff, delete_due_b_spec, !Z.leb_le in H1. exists t. tauto.
+    + intros [_ [H2 H3]]. split; [|exact H3]. destruct (H2 g eq_refl) as [t [G [Hd [Hg1 Hg2]]]].
+      rewrite G, !andb_true_iff, delete_due_b_spec, !Z.leb_le. tauto.
+  - split.
+    + intros [_ H3]. split; [discriminate|]. split; [intros g Hg; discriminate | exact H3].
+    + intros [_ [_ H3]]. split; [reflexivity | exact H3].
+Qed.
+
+Lemma queue_eqb_eq : forall a b, queue_eqb a b = true <-> a = b.
+Proof.
+  intros a. induction a as [|[k v] t IH]; intros [|[k' v'] t']; cbn; try (split; [discriminate | intros H; discriminate]).
+  - split; auto.
+  - rewrite !andb_true_iff, key_eqb_eq, dl_eqb_spec, IH. split.
+    + intros [[H1 H2] H3]. subst. reflexivity.
+    + intros H. inversion H. auto.
+Qed.
+
+Lemma entry_ok_b_spec_l : forall e, entry_ok_b e = true <-> entry_ok e.
+Proof.
+  intros e. unfold entry_ok_b, entry_ok.
+  destruct (e_op e) as [now dl pods| |now p api nok|]; destruct (e_out e) as [d|r|]; try (split; [discriminate | tauto]).
+  - apply drain_spec_b_spec.
+  - rewrite andb_true_iff, queue_eqb_eq. destruct (d_err d); cbn; split; intros [H1 H2]; split; auto; try discriminate; congruence.
+  - apply rec_spec_b_spec.
+  - destruct (e_after e); split; auto; discriminate.
+Qed.
+
+(* ------------------------------------------------------------------ deadlines along histories *)
+
+Definition selected_keys (now : Z) (dl : option Z) (pods : list pod) : list key := map pkey (selected now dl pods).
+
+Lemma selected_keys_In : forall k now dl pods,
+  In k (selected_keys now dl pods) <-> existsb (fun p => key_eqb k (pkey p)) (selected now dl pods) = true.
+Proof.
+  intros. unfold selected_keys. rewrite in_map_iff, existsb_key_In. split; intros [p [H1 H2]]; exists p; tauto.
+Qed.
+
+(* one step: a key that stays queued keeps its deadline or gets an earlier one *)
+Lemma step_mono : forall q o k d d',
+  qget k q = Some d -> qget k (fst (step q o)) = Some d' -> dl_le d' d.
+Proof.
+  intros q o k d d' G G'. destruct o as [now dl pods| |now p api nok|]; cbn in G'.
+  - pose proof (drain_queue q now dl pods) as Hq. destruct (drain q now dl pods) as [q' x]. cbn in Hq, G'. subst q'.
+    rewrite qadd_get, G in G'. destruct (existsb _ _).
+    + inversion G'. cbn. apply earlier_le_l.
+    + inversion G'. apply dl_le_refl.
+  - rewrite G in G'. inversion G'. apply dl_le_refl.
+  - pose proof (reconcile_meets_spec q now p api nok) as [_ [_ H]].
+    destruct (reconcile q now p api nok) as [q' r]. cbn in H, G'. apply H in G'. rewrite G in G'. inversion G'. apply dl_le_refl.
+  - discriminate.
+Qed.
+
+(* a drain pass that selects a key leaves it queued under a deadline no later than the pass's own *)
+Lemma drain_selected_bound : forall q now dl pods k,
+  In k (selected_keys now dl pods) ->
+  exists d, qget k (fst (step q (ODrain now dl pods))) = Some d /\ dl_le d dl.
+Proof.
+  intros q now dl pods k Hk. cbn.
+  pose proof (drain_queue q now dl pods) as Hq. destruct (drain q now dl pods) as [q' x]. cbn in Hq |- *. subst q'.
+  rewrite qadd_get. apply selected_keys_In in Hk. rewrite Hk. eexists. split; [reflexivity | apply earlier_le_r].
+Qed.
+
+(* ... and exactly the minimum of the previous entry and the pass's deadline *)
+Lemma drain_selected_min : forall q now dl pods k,
+  In k (selected_keys now dl pods) ->
+  qget k (fst (step q (ODrain now dl pods))) = Some (earlier (dflt (qget k q)) dl).
+Proof.
+  intros q now dl pods k Hk. cbn.
+  pose proof (drain_queue q now dl pods) as Hq. destruct (drain q now dl pods) as [q' x]. cbn in Hq |- *. subst q'.
+  rewrite qadd_get. apply selected_keys_In in Hk. rewrite Hk. reflexivity.
+Qed.
+
+(* deadline_never_later: after a drain pass queued k under dl, for as long as k stays queued (whatever drain
+   passes with other deadlines, reconciles, API answers happen in between), the deadline in force for k is
+   no later than dl. [mid] is any continuation; the hypothesis says k is queued after every prefix of it. *)
+Lemma deadline_never_later_l : forall q0 now dl pods k mid,
+  In k (selected_keys now dl pods) ->
+  (forall m1 m2, mid = m1 ++ m2 -> qget k (run_from (fst (step q0 (ODrain now dl pods))) m1) <> None) ->
+  exists d, qget k (run_from (fst (step q0 (ODrain now dl pods))) mid) = Some d /\ dl_le d dl.
+Proof.
+  intros q0 now dl pods k mid Hk. set (q1 := fst (step q0 (ODrain now dl pods))).
+  induction mid as [|o m IH] using rev_ind; intros Hstay.
+  - cbn. apply drain_selected_bound. exact Hk.
+  - destruct IH as [d [Gd Hd]].
+    { intros m1 m2 E. apply (Hstay m1 (m2 ++ [o])). rewrite E, app_assoc. reflexivity. }
+    rewrite run_from_app. cbn.
+    destruct (qget k (fst (step (run_from q1 m) o))) as [d'|] eqn:G'.
+    + exists d'. split; [reflexivity|]. apply (dl_le_trans d' d dl); [exact (step_mono _ _ _ _ _ Gd G') | exact Hd].
+    + exfalso. apply (Hstay (m ++ [o]) []); [rewrite app_nil_r; reflexivity|].
+      rewrite run_from_app. cbn. exact G'.
+Qed.
+
+(* provenance: a key is in the queue only because a drain pass of the history selected it, and the deadline it
+   is queued under is the deadline of such a pass *)
+Lemma step_provenance : forall q o k d,
+  qget k (fst (step q o)) = Some d ->
+  qget k q = Some d \/ exists now pods, o = ODrain now d pods /\ In k (selected_keys now d pods).
+Proof.
+  intros q o k d G'. destruct o as [now dl pods| |now p api nok|]; cbn in G'.
+  - pose proof (drain_queue q now dl pods) as Hq. destruct (drain q now dl pods) as [q' x]. cbn in Hq, G'. subst q'.
+    rewrite qadd_get in G'. destruct (existsb _ _) eqn:Ex; [|left; exact G'].
+    inversion G' as [Hd]. destruct (qget k q) as [e|] eqn:G; cbn in *.
+    + destruct (earlier_cases e dl) as [E|E].
+      * left. rewrite E. reflexivity.
+      * right. rewrite E. exists now, pods. split; [reflexivity|]. apply selected_keys_In. exact Ex.
+    + right. exists now, pods. split; [reflexivity|]. apply selected_keys_In. exact Ex.
+  - left. exact G'.
+  - pose proof (reconcile_meets_spec q now p api nok) as [_ [_ H]].
+    destruct (reconcile q now p api nok) as [q' r]. cbn in H, G'. left. apply H. exact G'.
+  - discriminate.
+Qed.
+
+Lemma queue_entry_provenance_l : forall ops k d,
+  qget k (run ops) = Some d ->
+  exists pre now pods post, ops = pre ++ ODrain now d pods :: post /\ In k (selected_keys now d pods).
+Proof.
+  intros ops. induction ops as [|o m IH] using rev_ind; intros k d G.
+  - discriminate.
+  - rewrite run_snoc in G. apply step_provenance in G. destruct G as [G|[now [pods [E Hk]]]].
+    + destruct (IH _ _ G) as [pre [now [pods [post [E Hk]]]]].
+      exists pre, now, pods, (post ++ [o]). split; [|exact Hk]. rewrite E, <- app_assoc. reflexivity.
+    + exists m, now, pods, []. subst o. auto.
+Qed.
+
+(* ------------------------------------------------------------------ the named properties, over all histories *)
+
+Lemma evict_only_evictable_l : forall pre now p api nok,
+  r_act (snd (reconcile (run pre) now p api nok)) = Some Evict ->
+  may_evict now p /\
+  exists pre1 now' dl pods pre2, pre = pre1 ++ ODrain now' dl pods :: pre2 /\ In (pkey p) (selected_keys now' dl pods).
+Proof.
+  intros pre now p api nok H. destruct (reconcile_meets_spec (run pre) now p api nok) as [H1 _].
+  destruct (H1 H) as [Hm Hq]. split; [exact Hm|].
+  destruct (qget (pkey p) (run pre)) as [d|] eqn:G; [|congruence].
+  destruct (queue_entry_provenance_l _ _ _ G) as [pre1 [now' [pods [pre2 [E Hk]]]]]. eauto 10.
+Qed.
+
+Lemma delete_only_with_deadline_l : forall pre now p api nok g,
+  r_act (snd (reconcile (run pre) now p api nok)) = Some (Delete g) ->
+  exists t,
+    qget (pkey p) (run pre) = Some (Some t) /\
+    delete_due now p t /\ 1 <= g /\ g = clamp_grace now t /\ g * sec <= Z.max (t - now) sec /\
+    exists pre1 now' pods pre2, pre = pre1 ++ ODrain now' (Some t) pods :: pre2 /\ In (pkey p) (selected_keys now' (Some t) pods).
+Proof.
+  intros pre now p api nok g H. destruct (reconcile_meets_spec (run pre) now p api nok) as [_ [H2 _]].
+  destruct (H2 g H) as [t [G [Hd [Hg1 Hg2]]]]. exists t. split; [exact G|]. split; [exact Hd|]. split; [exact Hg1|].
+  split.
+  - unfold reconcile in H. rewrite G in H. destruct (nfd now p (Some t)).
+    + unfold force_delete in H. destruct api; cbn in H; inversion H; reflexivity.
+    + unfold rest_of_reconcile in H. destruct (is_active p); cbn in H; [|discriminate].
+      destruct (is_evictable now p); cbn in H; [|discriminate]. unfold evict in H. destruct api; cbn in H; discriminate.
+  - split; [exact Hg2|]. destruct (queue_entry_provenance_l _ _ _ G) as [pre1 [now' [pods [pre2 [E Hk]]]]]. eauto 10.
+Qed.
+
+(* no action at all on a pod that is not queued (a replaced pod with the same name, a restart) *)
+Lemma no_action_unless_queued_l : forall q now p api nok,
+  qget (pkey p) q = None -> reconcile q now p api nok = (q, mkR None RDone).
+Proof. intros q now p api nok G. unfold reconcile. rewrite G. reflexivity. Qed.
+
+Lemma tier_order_l : forall now dl pods p,
+  In p (selected now dl pods) ->
+  In p pods /\ waiting now p /\
+  (due_under now p dl \/ forall p', In p' pods -> waiting now p' -> ~ due_under now p' dl -> tier p <= tier p').
+Proof. intros now dl pods p H. destruct (selected_selectable _ _ _ _ H) as [H1 [H2 H3]]. auto. Qed.
+
+(* a drain pass only ever touches the queue entries of the pods it selected *)
+Lemma drain_touches_selected_only_l : forall q now dl pods k,
+  ~ In k (selected_keys now dl pods) -> qget k (fst (step q (ODrain now dl pods))) = qget k q.
+Proof.
+  intros q now dl pods k Hk. cbn.
+  pose proof (drain_queue q now dl pods) as Hq. destruct (drain q now dl pods) as [q' x]. cbn in Hq |- *. subst q'.
+  rewrite qadd_get. destruct (existsb _ _) eqn:Ex; [|reflexivity]. exfalso. apply Hk. apply selected_keys_In. exact Ex.
+Qed.
+
+Lemma drain_done_iff_l : forall q now dl pods,
+  d_err (snd (drain q now dl pods)) = DOk <-> forall p, In p pods -> ~ waiting now p.
+Proof. intros q now dl pods. destruct (drain_meets_spec q now dl pods) as [_ [_ [H _]]]. exact H. Qed.
+
+(* the tier of a pod in terms of the specification's predicates *)
+Lemma tier_spec : forall p,
+  (tier p = 0 <-> ~ critical_pod p /\ ~ daemon_pod p) /\ (tier p = 1 <-> ~ critical_pod p /\ daemon_pod p) /\
+  (tier p = 2 <-> critical_pod p /\ ~ daemon_pod p) /\ (tier p = 3 <-> critical_pod p /\ daemon_pod p).
+Proof.
+  intros p. unfold tier, critical_pod, daemon_pod, is_critical, is_owned_by_daemonset.
+  pose proof (owned_by_spec p daemonset_owner) as HD. unfold daemonset_owner in *.
+  destruct (String.eqb_spec (p_prio p) "system-cluster-critical"), (String.eqb_spec (p_prio p) "system-node-critical"),
+    (owned_by p ("apps/v1", "DaemonSet")); cbn;
+    repeat split; intros; try lia; try tauto; try discriminate;
+    try (destruct HD as [HD1 HD2]; try (specialize (HD1 eq_refl)); intuition (try congruence; try discriminate)).
+Qed.
